@@ -141,6 +141,25 @@ Theorem C15_captures : forall idx v tx i,
 Proof. exact rx_captures. Qed.
 Print Assumptions C15_captures.
 
+(* a non-participating group is stored as "" - a text left by an earlier capturing rule does
+   not survive in TX.i for any group index i < min(groups, 10) *)
+Theorem C15_captures_overwrite_stale : forall idx v tx i,
+  (i < 10)%nat -> (i < ngroups idx)%nat -> (nth (2 * i) idx (-1) < 0)%Z ->
+  tx_get (store_captures true tx 0 (snd (rx_eval (Some idx) true v))) (itoa (N.of_nat i)) = Some [].
+Proof. exact rx_captures_overwrite_stale. Qed.
+Print Assumptions C15_captures_overwrite_stale.
+
+Theorem C15_captures_sequence : forall idx1 v1 idx2 v2 tx i,
+  (i < 10)%nat ->
+  let tx1 := store_captures true tx 0 (snd (rx_eval (Some idx1) true v1)) in
+  let tx2 := store_captures true tx1 0 (snd (rx_eval (Some idx2) true v2)) in
+  tx_get tx2 (itoa (N.of_nat i))
+  = if (i <? ngroups idx2)%nat then Some (rx_group idx2 v2 i)
+    else if (i <? ngroups idx1)%nat then Some (rx_group idx1 v1 i)
+    else tx_get tx (itoa (N.of_nat i)).
+Proof. exact rx_captures_sequence. Qed.
+Print Assumptions C15_captures_sequence.
+
 Theorem C15_no_capture_without_action : forall tx k caps, store_captures false tx k caps = tx.
 Proof. exact store_captures_off. Qed.
 Print Assumptions C15_no_capture_without_action.
